@@ -28,6 +28,16 @@ T = {
  "C12-2": ("C12", "Decoder::f16 fast path treats the largest subnormal as a normal", "exactly f9 03 ff and f9 83 ff", ["C12"], "half-items: f16()/f32()/f64() differ from the value the pattern denotes"),
  "C13-1": ("C13", "Cursor<[u8; N]>::write_all advances the position before the bounds check", "a rejected write on the fixed-array cursor", ["C13"], "values-capacities-sinks and write_all-sequences: position 1 after a rejected write into capacity 0"),
  "C13-2": ("C13", "Writer<W: io::Write>::write_all calls write() once and ignores short writes", "an io::Write that accepts fewer bytes than offered", ["C13"], "values-capacities-sinks: success reported into a sink of capacity 0"),
+ "C14-1": ("C14", "blocking Reader: Interrupted in the prefix loop restarts read_with (partial prefix in locals is discarded)", "short read delivering 1-3 prefix bytes followed immediately by ErrorKind::Interrupted", ["C14"], "reader-fragmentation: wrong result after a short prefix read + Interrupted"),
+ "C14-2": ("C14", "blocking Writer: buffer reset moved to the success path (with_buffer reserves the prefix, truncate(4) after write_all)", "a write that returns an error followed by another write on the same Writer", ["C14"], "writer-short-writes: the write after a rejected one fails with InvalidLen / carries stale bytes"),
+ "C16-1": ("C16", "AsyncWriter::sync keeps the offset in a local across awaits", "sink accepts 0 < k < frame_len bytes, then Pending + drop (or a transient error), then sync", ["C16"], "write-sync-schedules: sink holds the frame prefix twice"),
+ "C16-2": ("C16", "AsyncWriter::write_with arms State::WriteFrom(0) before encoding and the max_len check", "a rejected write (InvalidLen or encode error) followed by an explicit sync()", ["C16"], "write-sync-schedules: sync on an idle writer called poll_write after a rejected value"),
+ "C17-1": ("C17", "deserialize_any: Type::U64 dispatches to deserialize_i64", "u64 above i64::MAX inside an untagged / internally tagged enum or a flattened struct", ["C17"], "wrapper-x-leaf: enum-internal<u64> u64::MAX fails to deserialise"),
+ "C17-2": ("C17", "MapAccess::next_key_seed no longer consumes the break byte of an indefinite map", "indefinite-length map (flatten, or re-framed input) followed by a position check or a sibling", ["C17"], "wrapper-x-leaf: struct re-framed as bf..ff consumed 4 of 5 bytes"),
+ "C19-1": ("C19", "display: empty indefinite text string leaves its break unconsumed", "a well-formed item containing 7f ff", ["C19"], "exact-rendering: displayed 1(1(\"\"_))] "),
+ "C19-2": ("C19", "display: premature end of input no longer stops the stack machine", "definite array/map head declaring far more elements than the truncated input holds", ["C19", "C02"], "totality-and-size: output exceeds 16*len+512"),
+ "C20-1": ("C20", "no-alloc skip, MAP arm: nrounds < 2 became <= 2", "minicbor built without alloc; indefinite map inside a definite container with exactly one more item pending", ["C20", "C06"], "C20 transcripts (serde IgnoredAny / skip positions differ from std+half) and C06 no-alloc probe (82 bf ff 00 skipped to 3 of 4)"),
+ "C20-2": ("C20", "no-alloc twin of the Tagged<N,T> wrong-tag error uses Error::message instead of tag_mismatch", "minicbor built without alloc; decoding Tagged<N,T> from an item with another tag and inspecting the error class", ["C20"], "transcripts: decode<Tagged<1,u8>> is Err(message) in `none`, Err(tag mismatch) in std+half"),
  "C15-1": ("C15", "AsyncReader: length-prefix progress kept in locals across awaits", "prefix delivered in >= 2 pieces with a Pending + drop or a transient error in between", ["C15"], "poll-drop-schedules: result #0 InvalidLen / UnexpectedEof instead of the value"),
  "C15-2": ("C15", "AsyncReader: EOF at payload offset 0 reported as a clean end", "stream ends exactly after a complete prefix announcing a non-empty payload", ["C15"], "poll-drop-schedules: CleanEnd where the model expects UnexpectedEof"),
 }
@@ -48,4 +58,10 @@ for k, (prop, change, needs, caught, how) in T.items():
         "caught_by": caught, "how": how,
     }
     json.dump(meta, open(os.path.join(d, "meta.json"), "w"), indent=1)
-print("ok")
+rows = []
+for k in sorted(T):
+    prop, change, needs, caught, how = T[k]
+    if os.path.isdir(os.path.join(base, k)):
+        rows.append("| %s | %s | %s | %s | %s |" % (k, prop, change, needs, ", ".join(caught) + ": " + how))
+open(os.path.join(base, "SUMMARY.md"), "w").write("| seeded change | property | change | needs to manifest | caught by |\n|---|---|---|---|---|\n" + "\n".join(rows) + "\n")
+print("ok", len(rows))
